@@ -55,8 +55,9 @@ def main() -> int:
                        "(rows of H are the cell vectors)", _show(t)[:200], witness=v[1], sound=True)   # v[1] is a concrete cell / displacement on which the extracted term differs
             elif v[0] == "ok":
                 run.ob("R-PBC", "inline minimum image", _show(t)[:70], True, "inline re-implementation of the minimum image verified against the reference form (frame typing + algebra)", "")
-        from .checks.apilib import api_pass
+        from .checks.apilib import api_pass, alias_pass
         api_pass(run, pkg)
+        alias_pass(run, pkg)
         if tier == "thorough" and not a.replay and not os.environ.get("VERIF_NO_SELFTEST"):
             selftest_stage(run, pid)
     except AnalysisError as e:
